@@ -1,10 +1,10 @@
 package engine
 
 import (
-	"strconv"
 	"go/constant"
 	"go/token"
 	"go/types"
+	"strconv"
 	"strings"
 
 	"golang.org/x/tools/go/ssa"
